@@ -247,19 +247,42 @@ def function_control_case(ctx, rng, n):
     tail = rand_unitaries(rng, n, rng.randint(0, 2))
     depth = 3
 
-    def model_cm(d):
+    # two ways of writing the same protocol: a plain function, or a ClassicalControl object that keeps the number of the
+    # round between calls of return_gates (round r repeats the retry block r times) and resets it in finalize(): the
+    # SAME circuit object is simulated for several outcome strings one after the other
+    style = rng.choice(["function", "class"])
+
+    def model_cm(d, r=1):
+        reps = r if style == "class" else 1
         if d == 0:
             return {"n": "CMEASURE", "t": [q], "on0": [], "on1": []}
-        return {"n": "CMEASURE", "t": [q], "on0": retry + [model_cm(d - 1)], "on1": done}
+        return {"n": "CMEASURE", "t": [q], "on0": retry * reps + [model_cm(d - 1, r + 1)], "on1": done}
     prog = head + [model_cm(depth)] + tail
 
     def cfunc(measurement):
         if measurement == "0":
             return [to_tangelo_gate(g) for g in retry] + [Gate("CMEASURE", q)]
         return [to_tangelo_gate(g) for g in done]
-    circ = Circuit([to_tangelo_gate(g) for g in head] + [Gate("CMEASURE", q)] + [to_tangelo_gate(g) for g in tail], n_qubits=n, cmeasure_control=cfunc)
+
+    from tangelo.linq.circuit import ClassicalControl
+
+    class RoundControl(ClassicalControl):
+        def __init__(self):
+            self.round = 0
+
+        def return_gates(self, measurement):
+            if measurement == "0":
+                self.round += 1
+                return [to_tangelo_gate(g) for g in retry] * self.round + [Gate("CMEASURE", q)]
+            return [to_tangelo_gate(g) for g in done]
+
+        def finalize(self):
+            self.round = 0
+    control = cfunc if style == "function" else RoundControl()
+    circ = Circuit([to_tangelo_gate(g) for g in head] + [Gate("CMEASURE", q)] + [to_tangelo_gate(g) for g in tail], n_qubits=n, cmeasure_control=control)
     sim = get_backend("cirq")
-    case = {"prog": prog, "n": n, "style": "function"}
+    case = {"prog": prog, "n": n, "style": style}
+    ctx.count("function_control:" + style)
     for s in ["1", "01", "001"]:
         j = ctx.model.ask({"op": "branch", "prog": prog, "n": n, "order": "lsq_first", "desired": s, "init": None, "terms": None})
         if "prob" not in j or j["leftover"] != 0:
